@@ -312,7 +312,7 @@ def run(ctx):
         for _ in range(300 if ctx.thorough else 40):
             retries = r2.choice([1, 2, 3, 4])
             seq = [r2.choice(["Vc", "Uf", "Pf", "Px", "Pt", "S"]) for _ in range(retries)]
-            nfiles = r2.choice([1, 1, 2, 3])
+            nfiles = r2.choice([1, 1, 2, 3, 10, 11, 21, 25])       # (also more files than any batch size)
             contents = [bytes(r2.choice(b"H|\\^&P1|OR\rL\xe9\xff \n") for _ in range(r2.randrange(1, 40))) for _ in range(nfiles)]
             paths = []
             for i, c in enumerate(contents):
